@@ -13,6 +13,8 @@
 //     4 wake     : a active+required, b passive+required, plus a NodeScheduler driven from start() and
 //                  from the first NSOPS runs: schedule(d) / schedule(d,"a") / un_schedule("a"), d symbolic
 //     5 nested   : variant 0 placed behind a nested-graph boundary (child graph owned by a single_nested_graph_node)
+//     6 sos      : schedule_on_start node (node.cpp start_impl asks for the start cycle itself), no required input:
+//                  a active, b passive, c active, all InputValidity::Unchecked
 //   symbolic : every payload, every requested wake-up delta
 //   oracle   : per cycle t   ran(t) <=> (active tick at t or own wake-up due at t) and required inputs valid;
 //              every value read == latest value written up to t; sink saw f(values) exactly when the gate ran.
@@ -29,7 +31,7 @@
 #define DMAX 2
 #endif
 #ifndef VARIANT_MASK
-#define VARIANT_MASK 0x3f
+#define VARIANT_MASK 0x7f
 #endif
 #ifndef VMAX
 #define VMAX 1000
@@ -118,6 +120,13 @@ template <class A, class B, class C> void gate_body(A &a, B &b, C &c, State<Int>
 struct GatePolicy {
     static constexpr auto name = "gate_policy";
     static void eval(In<"a", TS<Int>> a, In<"b", TS<Int>, InputActivity::Passive> b, In<"c", TS<Int>, InputValidity::Unchecked> c,
+                     State<Int> n, Out<TS<Int>> out, DateTime now) { gate_body(a, b, c, n, out, now); }
+};
+struct GateSos {
+    static constexpr auto name = "gate_sos";
+    static constexpr bool schedule_on_start = true;
+    static void eval(In<"a", TS<Int>, InputValidity::Unchecked> a, In<"b", TS<Int>, InputActivity::Passive, InputValidity::Unchecked> b,
+                     In<"c", TS<Int>, InputValidity::Unchecked> c,
                      State<Int> n, Out<TS<Int>> out, DateTime now) { gate_body(a, b, c, n, out, now); }
 };
 struct GateMarker {
@@ -228,6 +237,7 @@ template <int V> struct Top {
             if constexpr (V == 1) wire<Sink>(w, wire<GateMarker>(w, a, passive(b), c));
             if constexpr (V == 2) wire<Sink>(w, wire<GateAllValid>(w, {a, b}, c));
             if constexpr (V == 3) wire<Sink>(w, wire_schema_gate(w, a, b, c));
+            if constexpr (V == 6) wire<Sink>(w, wire<GateSos>(w, a, b, c));
             if constexpr (V == 5) {
                 auto out = nested_call(w, "c03_nested", std::type_index(typeid(Top<5>)), {a.erased(), b.erased(), c.erased()},
                                        [](Wiring &cw, std::span<const WiringPortRef> in) -> std::optional<WiringPortRef> {
@@ -246,14 +256,15 @@ GraphBuilder build_variant(int v) {
         case 2: return build_graph<Top<2>>();
         case 3: return build_graph<Top<3>>();
         case 4: return build_graph<Top<4>>();
-        default: return build_graph<Top<5>>();
+        case 5: return build_graph<Top<5>>();
+        default: return build_graph<Top<6>>();
     }
 }
 }  // namespace
 
 extern "C" int harness_main() {
     int nvar = 0, vars[8];
-    for (int v = 0; v < 6; v++) if (VARIANT_MASK & (1 << v)) vars[nvar++] = v;
+    for (int v = 0; v < 7; v++) if (VARIANT_MASK & (1 << v)) vars[nvar++] = v;
     g_variant = vars[verif_choice("variant", nvar)];
     const int V = g_variant;
     const bool wake = V == 4;
@@ -269,7 +280,7 @@ extern "C" int harness_main() {
     bool ok_if = true, ok_valid = true, ok_cause = true, ok_cancel = true, ok_passive = true, ok_once = true;
     bool ok_vals = true, ok_out = true, ok_sink_iff = true, ok_state = true;
     bool r_passive_only = false, r_active_invalid = false, r_both_active = false, r_wake_only = false, r_wake_invalid = false,
-         r_cancel_due = false, r_unchecked_invalid = false, r_b_late = false, r_ran_on_wake = false;
+         r_cancel_due = false, r_unchecked_invalid = false, r_b_late = false, r_ran_on_wake = false, r_start_wake = false;
     Int cnt = 0;
     for (int j = 0; j < NT; j++) {
         DateTime t = start + TimeDelta{j};
@@ -278,7 +289,7 @@ extern "C" int harness_main() {
         bool ta = j < NCYC && g_tick[0][j], tb = j < NCYC && g_tick[1][j], tc = !wake && j < NCYC && g_tick[2][j];
         bool active_tick = V == 2 ? (ta | tb | tc) : (ta | tc);
         bool passive_tick = V == 2 ? false : tb;
-        bool req_valid = valid[0] & valid[1];
+        bool req_valid = V == 6 ? true : (valid[0] & valid[1]);
         bool wake_due = false, cancel_due = false;
         for (int r = 0; r < g_nreq; r++) {
             bool cancelled_before = g_req[r].cancelled & (g_req[r].cancel_t < g_req[r].when);
@@ -300,7 +311,9 @@ extern "C" int harness_main() {
                 ok_out &= !(here & (g_sink[s].t == t)) | (g_sink[s].v == f_out(g_runs[i].a, g_runs[i].b, g_runs[i].c, g_runs[i].cvalid, g_runs[i].cnt));
         }
         for (int s = 0; s < g_nsink; s++) sink_ran |= g_sink[s].t == t;
-        bool cause = active_tick | wake_due;
+        bool start_wake = V == 6 && j == 0;  // schedule_on_start: the node asked for the start cycle
+        bool cause = active_tick | wake_due | start_wake;
+        r_start_wake |= start_wake & !active_tick & ran;
         ok_if &= !(cause & req_valid) | ran;
         ok_valid &= !ran | req_valid;
         ok_cause &= !ran | cause | cancel_due;
@@ -350,6 +363,7 @@ extern "C" int harness_main() {
     if (V == 3) verif_reach("variant_schema_gate");
     if (V == 4) verif_reach("variant_wake");
     if (V == 5) verif_reach("variant_nested");
+    if (r_start_wake) verif_reach("ran_on_schedule_on_start_only");
     verif_log("runs", g_nruns);
     verif_reach("end");
     return 0;
